@@ -27,3 +27,9 @@ proof fn lemma_count_mono(c: Seq<u8>, a: int, b: int)
 {
     if a < b { lemma_count_mono(c, a, b - 1); }
 }
+
+// vacuity canary (MUST fail): the guard's precondition is satisfiable with markers present
+proof fn canary_guard_pre(t: &RawTableInner, j: int)
+    requires t.shape(), t.mirrored(), t.items as int >= count_deleted(t.ctrl@, t.nb()), t.items as int <= spec_cap_of(t.bucket_mask),
+        0 <= j < t.nb(), t.ctrl@[j] == 0x80u8, t.nb() >= Group::WIDTH,
+    ensures false {}
